@@ -101,13 +101,20 @@ func YAMLChain(anon bool) []M {
 	}
 	return c
 }
-func TOMLChain() []M { return []M{TagCopy(common.DialsTagName, "toml")} }
-func EzChain(reformatEnc int) []M {
+func TOMLChain() []M              { return []M{TagCopy(common.DialsTagName, "toml")} }
+func EzChain(reformatEnc int) []M { return EzChainOpts(reformatEnc, true) }
+
+// EzChainOpts: the file decoder's wrap as ez assembles it from its Params
+// (FileFieldNameEncoder, !DisableAutoSetToSlice); the alias mangler is always there.
+func EzChainOpts(reformatEnc int, setSlice bool) []M {
 	c := []M{Alias(common.DialsTagName)}
 	if reformatEnc >= 0 {
 		c = append(c, Reformat(common.DialsTagName, 6, reformatEnc))
 	}
-	return append(c, SetSlice())
+	if setSlice {
+		c = append(c, SetSlice())
+	}
+	return c
 }
 
 // DrawChain draws a shipped chain, a sub-chain (order kept) or a single mangler.
